@@ -346,7 +346,30 @@ pub fn chaos_run(cfg: &Cfg, sched: &[u8], server: &[u8]) -> Result<Info, String>
                         let _ = nf.uri();
                         let mut sr = nf.proceed();
                         let _ = sr.write(&mut out);
-                        let _ = sr.can_proceed();
+                        let ready = sr.can_proceed();
+                        // ... and the followed flow is a flow like any other: when its request went out, a plain relative redirect
+                        // is answered and followed once more (a target that was accepted on the first hop is the base of the
+                        // second one), then a head write on that flow
+                        if ready {
+                            if let Ok(Some(SendRequestResult::RecvResponse(mut rr))) = sr.proceed() {
+                                let second = b"HTTP/1.1 302 Found\r\nLocation: /moved/again?x=1\r\nContent-Length: 0\r\n\r\n";
+                                if let Ok((_, Some(_))) = rr.try_response(second) {
+                                    if let Some(RecvResponseResult::Redirect(mut r2)) = rr.proceed() {
+                                        match r2.as_new_flow(policy) {
+                                            Ok(Some(nf2)) => {
+                                                let _ = nf2.uri();
+                                                let mut sr2 = nf2.proceed();
+                                                let _ = sr2.write(&mut out);
+                                                let _ = sr2.can_proceed();
+                                            }
+                                            Ok(None) => {}
+                                            Err(_) => info.errors += 1,
+                                        }
+                                        let _ = r2.proceed().must_close_connection();
+                                    }
+                                }
+                            }
+                        }
                     }
                     Ok(None) => {}
                     Err(_) => info.errors += 1,
